@@ -53,6 +53,10 @@ def predicates(H, v):
     # killing them) while a worker is still alive and a queue lock is held by a dead one
     graceful = any(t["state"] == "blocked" and t["pid"] == 1000 and any(":join_executor_internals:" in fr for fr in (t["where"] or []))
                    for t in H.tasks)
+    # (second form of the same stuck state: with more survivors than call-queue slots the sentinels do not fit, nobody can
+    # read them, and after its cool-down the manager gives up with queue.Full inside shutdown_workers instead of blocking)
+    graceful = graceful or any(c[0].startswith("ExecutorManagerThread") and c[2].startswith("Full") and
+                               any("shutdown_workers" in fr for fr in (c[3] or [])) for c in H.task_crashes)
     survivors = any(p["alive"] for p in H.procs)
     for p in H.procs:
         d = p["death"]
